@@ -302,6 +302,8 @@ def run(tier, seed):
     cli = [(tuple(pre), bl, eol) for pre in PRELINES for bl in SOCK_BANNERS for eol in ('\r\n', '\n')]
     par.pmap(work_cli, cli, stats=st)
     par.pmap(work_twins, twin_tasks(), stats=st, chunk=4)
+    from props import delivery as _DL
+    par.pmap(_DL.work, _DL.tasks(tier), extra=(('banner',),), stats=st, chunk=12)
     vcases = []
     for pre, bl, eol in H.pick(cli, seed, 20 if tier == 'quick' else 80):
         vcases.append({'label': 'banner %r %r' % (pre, bl), 'opts': ['-n'] + (['-j'] if len(vcases) % 2 else []),
